@@ -5,7 +5,7 @@
 (* (with the serial number of the returned instance), and - from inside the fixture          *)
 (* constructor / parameter function, i.e. under the runtime's per-entry lock - every         *)
 (* construction.  Not logged: lock acquisition, cache lookups, dependency descent, stores,   *)
-(* inner unlocks; these are taken as silent steps, so TLC searches for an interleaving of    *)
+(* unlocks; these are taken as silent steps, so TLC searches for an interleaving of    *)
 (* ContainerConc that explains the observed order AND the observed instance identities.      *)
 EXTENDS ContainerConc, Json
 
@@ -40,10 +40,11 @@ TFn    == /\ Is("fn")
           /\ Consume /\ UNCHANGED serials
 (* an operation returns: the instance the model hands out must be the one the real container returned *)
 TReturn == /\ Is("op_return")
-           /\ Busy(Ev.g) /\ Len(stack[Ev.g]) = 1 /\ Top(Ev.g).phase = "unlock"
+           /\ Busy(Ev.g) /\ Len(stack[Ev.g]) = 1 /\ Top(Ev.g).phase = "return"
            /\ (Top(Ev.g).kind = "svc" => (Top(Ev.g).inst \in 1..Len(serials) /\ serials[Top(Ev.g).inst] = Ev.serial))
-           /\ Unlock(Ev.g) /\ Consume /\ UNCHANGED serials
-Silent == /\ \E g \in TG : Lock(g) \/ Check(g) \/ Dep(g) \/ Store(g) \/ (Len(stack[g]) > 1 /\ Unlock(g))
+           /\ Return(Ev.g) /\ Consume /\ UNCHANGED serials
+(* the mutex is released (deferred Unlock) BEFORE the probe logs the return of the operation: Unlock is silent too *)
+Silent == /\ \E g \in TG : Lock(g) \/ Check(g) \/ Dep(g) \/ Store(g) \/ Unlock(g)
           /\ UNCHANGED <<l, serials>>
 
 TNext == TStart \/ TCtor \/ TFn \/ TReturn \/ Silent
